@@ -439,3 +439,14 @@ package base
 //@ func ti/base.CalculateFrame
 //@   # frame of a class nested in `class` inside `frame` ("A" + "B" -> "A::B"; an empty part is skipped)
 //@   ensures[C27,C20] result == ite(frame == "" && class == "", "", ite(frame == "", class, ite(class == "", frame, frame + "::" + class)))
+
+//@ # ---- C17: block locals stay local ----
+//@ # RestoreFrame(current, snapshot) removes exactly the entries that the snapshot does not have:
+//@ # afterwards every key of current is a key of the snapshot (a variable first assigned inside the
+//@ # block is gone), and an entry both maps had keeps its binding (nothing else is touched).
+//@ func ti/base.RestoreFrame
+//@   requires currentFrame != nil
+//@   loop 0 invariant[C17] forall(k, "ti/base.FrameKey", visited(k) && has(currentFrame, k) ==> has(originalFrame, k))
+//@   loop 0 invariant[C17] forall(k, "ti/base.FrameKey", has(originalFrame, k) && old(has(currentFrame, k)) ==> has(currentFrame, k) && currentFrame[k] == old(currentFrame[k]))
+//@   ensures[C17] forall(k, "ti/base.FrameKey", has(currentFrame, k) ==> has(originalFrame, k))
+//@   ensures[C17] forall(k, "ti/base.FrameKey", has(originalFrame, k) && old(has(currentFrame, k)) ==> has(currentFrame, k) && currentFrame[k] == old(currentFrame[k]))
